@@ -130,3 +130,89 @@ Qed.
 
 Lemma BInv_reach v tr x : run v tr init = Some x -> BInv x.
 Proof. apply BInv_run. apply BInv_init. Qed.
+
+(* ---- no reader waits while a message is queued (every variant) ----
+   c_do_read blocks only on an empty queue, c_trigger hands the arriving message to a blocked reader exactly when
+   the queue is empty (and appends it otherwise, which by the invariant happens only when nobody is blocked),
+   c_stop unblocks everybody; the s_ counterparts alike. *)
+Definition c_noqw (c : cstream) : Prop := c_blocked c > 0 -> c_events c = [].
+Definition s_noqw (c : sstream) : Prop := s_blocked c > 0 -> s_events c = [].
+
+Record QInv (x : st) : Prop := {
+  q_c : forall s c, lookup s (cstreams x) = Some c -> c_noqw c;
+  q_s : forall s c, lookup s (sstreams x) = Some c -> s_noqw c }.
+
+Lemma QInv_init : QInv init.
+Proof. constructor; simpl; discriminate. Qed.
+
+Lemma c_do_read_noqw c : c_noqw c -> c_noqw (c_do_read c).
+Proof.
+  unfold c_noqw, c_do_read. intros H. destruct (c_closed c); simpl; auto.
+  destruct (c_events c); simpl; auto. intros B. specialize (H B). discriminate.
+Qed.
+Lemma c_trigger_noqw m c : c_noqw c -> c_noqw (c_trigger m c).
+Proof.
+  unfold c_noqw, c_trigger. intros H. destruct (c_blocked c) eqn:B; simpl; [lia|].
+  destruct (c_events c); simpl; auto. intros _. assert (K : S n > 0) by lia. specialize (H K). discriminate.
+Qed.
+Lemma c_stop_noqw c : c_noqw (c_stop c).
+Proof. unfold c_noqw. simpl. lia. Qed.
+Lemma s_do_read_noqw c : s_noqw c -> s_noqw (s_do_read c).
+Proof.
+  unfold s_noqw, s_do_read. intros H. destruct (s_closed c); simpl; auto.
+  destruct (s_events c); simpl; auto. intros B. specialize (H B). discriminate.
+Qed.
+Lemma s_trigger_noqw m c : s_noqw c -> s_noqw (s_trigger m c).
+Proof.
+  unfold s_noqw, s_trigger. intros H. destruct (s_blocked c) eqn:B; simpl; [lia|].
+  destruct (s_events c); simpl; auto. intros _. assert (K : S n > 0) by lia. specialize (H K). discriminate.
+Qed.
+Lemma s_stop_noqw c : s_noqw (s_stop c).
+Proof. unfold s_noqw. simpl. lia. Qed.
+
+Ltac qupd := match goal with
+  | |- forall s c, lookup s (update _ _ (cstreams _)) = Some c -> c_noqw c =>
+      apply (all_update c_noqw); [assumption|]
+  | |- forall s c, lookup s (update _ _ (sstreams _)) = Some c -> s_noqw c =>
+      apply (all_update s_noqw); [assumption|]
+  end.
+
+Ltac qfin QC QS := first
+  [ apply c_do_read_noqw; eauto
+  | apply c_trigger_noqw; eauto
+  | apply s_do_read_noqw; eauto
+  | apply s_trigger_noqw; eauto
+  | apply c_stop_noqw
+  | apply s_stop_noqw
+  | match goal with E : lookup _ (cstreams _) = Some ?c |- c_noqw _ => exact (QC _ _ E) end
+  | match goal with E : lookup _ (sstreams _) = Some ?c |- s_noqw _ => exact (QS _ _ E) end
+  | (unfold c_noqw; simpl; lia)
+  | (unfold s_noqw; simpl; lia) ].
+
+Lemma QInv_step v x a x' : BInv x -> QInv x -> step v x a = Some x' -> QInv x'.
+Proof.
+  intros B [QC QS] H. pose proof (b_nodup _ B) as ND.
+  destruct a; simpl in H.
+  18: destruct (cdecq x) as [|f r] eqn:D; try discriminate; destruct f.
+  11: destruct (sdecq x) as [|f r] eqn:D; try discriminate; destruct f.
+  all: destr H; constructor; simpl; auto; try qupd; try qfin QC QS.
+  - (* ConnLoss *) intros s c. rewrite lookup_map. destruct (lookup s (cstreams x)); simpl; try discriminate.
+    intros E; inversion E; subst. apply c_stop_noqw.
+  - (* STeardown *) intros s c. rewrite lookup_map. destruct (lookup s (sstreams x)); simpl; try discriminate.
+    intros E; inversion E; subst. apply s_stop_noqw.
+  - (* SDecode, QClose: the entry leaves the table *) intros k c; destruct (Nat.eq_dec k st);
+      [subst; rewrite NoDup_remove_lookup; auto; discriminate|rewrite lookup_remove_ne; auto; apply QS].
+  - (* SDecode, QClose, after the loss *) intros k c; destruct (Nat.eq_dec k st);
+      [subst; rewrite NoDup_remove_lookup; auto; discriminate|rewrite lookup_remove_ne; auto; apply QS].
+Qed.
+
+Lemma BQInv_run v tr : forall x x', BInv x -> QInv x -> run v tr x = Some x' -> QInv x'.
+Proof.
+  induction tr as [|a tr IH]; simpl; intros x x' B Q H.
+  - inversion H; subst; auto.
+  - destruct (step v x a) eqn:E; try discriminate.
+    eapply IH; [eapply BInv_step; eauto|eapply QInv_step; eauto|eauto].
+Qed.
+
+Lemma QInv_reach v tr x : run v tr init = Some x -> QInv x.
+Proof. apply BQInv_run; [apply BInv_init|apply QInv_init]. Qed.
